@@ -12,7 +12,7 @@ import builtins as _b
 import io
 import z3
 from pyvc.engine import Contract, make_value
-from pyvc.spec import and_, or_, not_, implies, ite, iff, tdiv, trem, tier
+from pyvc.spec import and_, or_, not_, implies, ite, iff, tdiv, trem, tier, pick
 from pyvc.sym import SymInt, SymBool, SymSeq, ctx, Undecided
 from pyvc import pybuiltins as PB, models as MD, symfloat as SF, sym as S
 
@@ -45,7 +45,7 @@ def wrap(ty, x):
 def ir_defined(op, ty, a, b):
     if op in ("/", "%"):
         return [b != 0]
-    if op in ("<<", ">>"):
+    if op in ("<<", ">>", "rol", "ror"):
         return [b >= 0, b < ty.bits]
     return []
 
@@ -71,10 +71,21 @@ def ir_binop(op, ty, a, b):
         return wrap(ty, a | b)
     if op == "^":
         return wrap(ty, a ^ b)
+    if op in ("rol", "ror"):
+        # rotation of the n-bit pattern of a by b positions (0 <= b < n), reinterpreted in the type
+        n = ty.bits
+        u = a % (1 << n)
+        k = pick(b, n)
+        if not isinstance(k, int):
+            raise Undecided("rotation count not concretised")
+        if k == 0:
+            return wrap(ty, u)
+        left = k if op == "rol" else n - k
+        return wrap(ty, (u * (1 << left)) % (1 << n) + u // (1 << (n - left)))
     raise Undecided("no IR specification for %r" % op)
 
 
-OPS = ["+", "-", "*", "/", "%", "<<", ">>", "&", "|", "^"]
+OPS = ["+", "-", "*", "/", "%", "<<", ">>", "&", "|", "^", "rol", "ror"]
 
 
 # ---- mechanical extraction: the text the real generator emits ---------------------------------------
@@ -163,11 +174,39 @@ CONTRACTS = []
 for _op in OPS:
     CONTRACTS.append(Contract(
         M + ":IrToPythonCompiler.gen_binop", "C24", label="emitted code of gen_binop(%s)" % _op,
-        grid=[{"op": _op, "ty": t} for t in int_types()], make=_mk_ab, call=_binop_call, sample_inputs=_samples_ab,
+        grid=[{"op": _op, "ty": t} for t in (int_types() if (_op not in ("rol", "ror") or tier() != "quick") else [_ir().i8, _ir().u16, _ir().i32, _ir().u64])],
+        make=_mk_ab, call=_binop_call, sample_inputs=_samples_ab,
         replay_args=lambda g, v: {"args": [], "env": dict(v)},
         requires=lambda e: ir_defined(e.op, e.ty, e.a, e.b),
         ensures=lambda e: [("emitted code computes the IR value of (a %s b) in %s" % (e.op, e.ty.name), e.result == ir_binop(e.op, e.ty, e.a, e.b)),
                            ("result is in the type's range", and_(e.result >= lo_hi(e.ty)[0], e.result < lo_hi(e.ty)[1]))]))
+
+
+# ---- unary operators ---------------------------------------------------------------------------------------
+def emitted_unop(op, ty):
+    from ppci.lang.python.ir2py import IrToPythonCompiler
+    ir = _ir()
+    f = io.StringIO()
+    gen = IrToPythonCompiler(f, None)
+    a = ir.Const(0, "a", ty)
+    ins = ir.Unop(op, a, "r", ty)
+    gen.generate_instruction(ins, None)
+    return f.getvalue(), ins.name
+
+
+def _unop_call(fn, env, args, kwargs):
+    text, name = emitted_unop(env.op, env.ty)
+    g = _run_text(text, {"a": env.a}, S.active())
+    return g[name]
+
+
+for _op in ("-", "~"):
+    CONTRACTS.append(Contract(
+        M + ":IrToPythonCompiler.generate_instruction", "C24", label="emitted code of the unary operator %s" % _op,
+        grid=[{"op": _op, "ty": t, "src": t} for t in int_types()], make=lambda c, g: _mk_a(c, g), call=_unop_call,
+        sample_inputs=lambda g, rnd: [{"a": d["a"]} for d in _samples_ab(g, rnd)], replay_args=lambda g, v: {"args": [], "env": dict(v)},
+        ensures=lambda e: [("emitted code computes the IR value of (%s a) in %s" % (e.op, e.ty.name),
+                            e.result == wrap(e.ty, (-e.a) if e.op == "-" else (-e.a - 1)))]))
 
 
 # ---- runtime helpers on every integer (not only in-range operands) -----------------------------------------
